@@ -192,7 +192,7 @@ def place(line, placement):
 
 def fault_doc(tok_id, placement):
     """A document that makes the given fault token fire, placed as requested."""
-    if tok_id in ('FaultBlockStart', 'FaultBlockRead', 'FaultBlockInit', 'FaultBlockInterrupt'):
+    if tok_id in ('FaultBlockStart', 'FaultBlockRead', 'FaultBlockInit', 'FaultBlockInterrupt', 'FaultBlockReadAbort'):
         if placement in ('heading', 'table'):
             placement = 'top'
         if tok_id == 'FaultBlockInterrupt' and placement == 'top':
@@ -202,7 +202,7 @@ def fault_doc(tok_id, placement):
             line = 'lead `c` text\n' + {'quote': '> ', 'list': '  ', 'loose_list': '  ', 'quote_in_list': '  > ',
                                         'list_in_quote': '>    ', 'after_para': '', 'top': ''}[placement] + 'FAULTLINE'
         return place(line, placement)
-    if tok_id in ('FaultSpanFind', 'FaultSpanInit'):
+    if tok_id in ('FaultSpanFind', 'FaultSpanInit', 'FaultSpanInitAbort'):
         return place(_SPAN_BODY % 'FAULTSPAN', placement)
     if tok_id == 'RenderFaultSpan':
         return place(_SPAN_BODY % 'RENDERFAULT', placement)
